@@ -383,6 +383,47 @@ Proof.
   - now apply locked_unique.
 Qed.
 
+(* ------------------------------------------------------------------ Switch / Close *)
+Lemma wm_state_snoc ts pid st ops op :
+  wm_state ts pid st (ops ++ [op]) = fst (fst (wm_step ts pid (wm_state ts pid st ops) op)).
+Proof. revert st. induction ops as [|o r IH]; intros st; cbn; [reflexivity|apply IH]. Qed.
+
+Lemma wm_writes_snoc ts pid st ops op :
+  wm_writes ts pid st (ops ++ [op]) =
+  wm_writes ts pid st ops ++ snd (fst (wm_step ts pid (wm_state ts pid st ops) op)).
+Proof.
+  revert st. induction ops as [|o r IH]; intros st; cbn [app wm_writes wm_state].
+  - now rewrite app_nil_r.
+  - rewrite IH. now rewrite app_assoc.
+Qed.
+
+(* after ANY history, a logging call appends exactly its line to the writer that is current at
+   that time -- or nothing when the package is closed or the level is Info *)
+Theorem log_goes_to_current ts pid st ops c :
+  wm_writes ts pid st (ops ++ [MLog c]) =
+  wm_writes ts pid st ops ++
+  (if lvl_live (l_lvl c) then
+     match w_cur (wm_state ts pid st ops) with Some w => [(w, call_line ts pid c)] | None => [] end
+   else []).
+Proof. rewrite wm_writes_snoc. reflexivity. Qed.
+
+(* after ANY history, Switch(w) makes w the current writer (also when w was installed before, also
+   right after Close) and writes nothing; Close makes the package silent *)
+Theorem switch_sets_current ts pid st ops w :
+  w_cur (wm_state ts pid st (ops ++ [MSwitch w])) = Some w /\
+  wm_writes ts pid st (ops ++ [MSwitch w]) = wm_writes ts pid st ops.
+Proof. rewrite wm_state_snoc, wm_writes_snoc. cbn. now rewrite app_nil_r. Qed.
+
+Theorem close_silences ts pid st ops :
+  w_cur (wm_state ts pid st (ops ++ [MClose])) = None /\
+  wm_writes ts pid st (ops ++ [MClose]) = wm_writes ts pid st ops.
+Proof. rewrite wm_state_snoc, wm_writes_snoc. cbn. now rewrite app_nil_r. Qed.
+
+(* logging does not change the writer state *)
+Lemma log_keeps_state ts pid st ops c :
+  wm_state ts pid st (ops ++ [MLog c]) = wm_state ts pid st ops.
+Proof. rewrite wm_state_snoc. reflexivity. Qed.
+
 Local Open Scope N_scope.
 (* ------------------------------------------------------------------ decimal rendering *)
 Fixpoint pow10 (k : nat) : N := match k with O => 1 | S k' => 10 * pow10 k' end.
